@@ -51,6 +51,8 @@ def lib():
         L.ints[(24, False, True)] = cu.ULInt24('')
         L.ints[(24, False, False)] = cu.UBInt24('')
         L.cstring = C.CString('')
+        L.cstring_utf8 = C.CString('', encoding='utf-8')
+        L.cstring_then_u16 = C.Struct('', C.CString('s', encoding='utf-8'), C.ULInt16('n'))
         _lib = L
     return _lib
 
@@ -135,6 +137,24 @@ def run_case(ctx, case):
         exp2 = ('perr',) if idx < 0 else ('ok', data[pos:idx], idx + 1)
         got2 = lib_parse(L.cstring, data, pos)
         _cmp(ctx, 'cstring_construct', got2, exp2, case)
+        # the same with the optional text encoding (the public parameter of CString): a string that is valid UTF-8 comes back decoded, and
+        # the bytes consumed are those of the encoding, not the characters of the result
+        if idx >= 0:
+            try:
+                txt = data[pos:idx].decode('utf-8')
+            except UnicodeDecodeError:
+                txt = None
+            if txt is not None:
+                _cmp(ctx, 'cstring_construct_utf8', lib_parse(L.cstring_utf8, data, pos), ('ok', txt, idx + 1), case)
+                # followed by another field in one structure: the field starts behind the terminator
+                if len(data) >= idx + 3:
+                    got3 = lib_parse(L.cstring_then_u16, data, pos)
+                    exp3 = ('ok', (txt, int.from_bytes(data[idx + 1:idx + 3], 'little')), idx + 3)
+                    if got3[0] == 'ok':
+                        got3 = ('ok', (got3[1].s, got3[1].n), got3[2])
+                    _cmp(ctx, 'cstring_construct_utf8_then_field', got3, exp3, case)
+                if len(txt) != idx - pos:
+                    ctx.count('cstr.utf8-multibyte')
         ln = (idx - pos) if idx >= 0 else len(data) - pos
         ctx.case(('cstr', pos, data), ln >= 2 or idx < 0, {'k': 'cstr', 'pos': pos, 'len': ln, 'terminated': idx >= 0})
         ctx.count('cstr.%s' % ('unterminated' if idx < 0 else ('chunk+' if ln >= 63 else 'short')))
@@ -310,6 +330,14 @@ def sweep(tier):
             cases.append({'k': 'cstr', 'pos': pos, 'data': pre + body + b'\x00junk\x00'})
             cases.append({'k': 'cstr', 'pos': pos, 'data': pre + body + b'\x00'})
             cases.append({'k': 'cstr', 'pos': pos, 'data': pre + body})
+    # multi-byte UTF-8 text (1..4 bytes per character) of every length, also across the chunk boundaries
+    alphabet = 'aé中\U0001f600zÜλ'
+    for ln in list(range(0, 40)) + [60, 61, 62, 63, 64, 65, 66, 126, 127, 128, 129, 130, 200]:
+        txt = ''.join(alphabet[(i * 3 + ln) % len(alphabet)] for i in range(ln))
+        for pos in (0, 1, 63):
+            pre = b'\x00' * pos if pos != 1 else b'\x41'
+            cases.append({'k': 'cstr', 'pos': pos, 'data': pre + txt.encode('utf-8') + b'\x00\x2a\x34\x12'})
+            cases.append({'k': 'cstr', 'pos': pos, 'data': pre + txt.encode('utf-8') + b'\x00'})
     # ... and around every power of two up to 128 KiB (whatever the size of the reader's buffer is, a string may cross it several times)
     for k in range(9, 18):
         for ln in ((1 << k) - 1, 1 << k, (1 << k) + 1):
@@ -431,6 +459,8 @@ def strategy(tier):
     def cstr_case(draw):
         ln = draw(st.one_of(st.integers(0, 300), st.sampled_from([62, 63, 64, 65, 126, 127, 128, 129, 191, 192])))
         body = draw(st.binary(min_size=ln, max_size=ln)).replace(b'\0', b'\x01')
+        if draw(st.integers(0, 3)) == 0:
+            body = draw(st.text(alphabet=st.characters(min_codepoint=1, exclude_categories=('Cs',)), min_size=0, max_size=max(1, ln // 2))).encode('utf-8')
         pos = draw(st.sampled_from([0, 0, 1, 5, 63, 64]))
         term = draw(st.sampled_from(['junk', 'eof', 'none']))
         tail = {'junk': b'\0' + draw(st.binary(max_size=70)), 'eof': b'\0', 'none': b''}[term]
